@@ -7,6 +7,8 @@ mkdir -p "$here/.build/bin" "$here/replay" "$here/evidence"
 cp -f /repo/go.sum "$here/mon/go.sum"
 cd "$here/mon"
 go build -o "$here/.build/bin/vcheck" ./cmd/vcheck
+# sanity tests of the harness' own reference models (recogniser, version order, renderer, matching model)
+go test -count=1 ./internal/... >/dev/null 2>&1 || echo "warning: harness self-tests failed (non-fatal: they read the tables of the tree under check)"
 go build -o "$here/.build/bin/worker.warm" ./cmd/worker
 go build -race -o "$here/.build/bin/worker.warm-race" ./cmd/worker
 rm -f "$here/.build/bin/worker.warm" "$here/.build/bin/worker.warm-race"
